@@ -14,7 +14,10 @@ use std::{
 };
 use std::future::Future;
 use std::marker::PhantomData;
+#[cfg(not(feature = "verif"))]
 use crossbeam_channel::{Sender, Receiver, TryRecvError};
+#[cfg(feature = "verif")]
+use crate::verif::cb::{self as crossbeam_channel, Sender, Receiver, TryRecvError};
 use log::warn;
 
 
@@ -157,6 +160,7 @@ Crossbeam<'a, ItemType, BUFFER_SIZE, MAX_STREAMS> {
     #[inline(always)]
     fn send_derived(&self, arc_item: &Arc<ItemType>) -> bool {
         for stream_id in self.streams_manager.used_streams() {
+            #[cfg(feature = "verif")] crate::verif::yield_point_r("multi.used.read");
             if *stream_id == u32::MAX {
                 break
             }
